@@ -400,6 +400,67 @@ def one_case(args):
         shutil.rmtree(wd, ignore_errors=True)
 
 
+# ------------------------------------------------------------------ death during the very first start
+def startup_case(args):
+    """a server started on a NEW file dies before the k-th schema statement; a server restarted on that file must open
+    it, create an object, list and read it back ("never ... a store the server can no longer open and list")"""
+    k, = args
+    wd = tempfile.mkdtemp(prefix="vcrashs")
+    try:
+        db = os.path.join(wd, "db.sqlite")
+        p = subprocess.run(["/venv/bin/python", CHILD, "--db", db, "--startup-kill", str(k)],
+                           stdout=subprocess.PIPE, stderr=subprocess.PIPE, text=True, timeout=120)
+        if k == "count":
+            for ln in p.stdout.splitlines():
+                try:
+                    return {"k": k, "count": json.loads(ln)["schema_statements"]}
+                except Exception:
+                    pass
+            return {"k": k, "count": 0, "stderr": p.stderr[-400:]}
+        out = {"k": k, "rc": p.returncode, "problems": []}
+        try:
+            objs, healthy = reopen_dump(db)
+            if not healthy or objs:
+                out["problems"].append("after the restart the store is not an empty, listable store: %d objects, healthy %s"
+                                       % (len(objs), healthy))
+        except Exception as e:
+            out["problems"].append("the restarted server cannot open / list the store: %s: %s" % (type(e).__name__, str(e)[:200]))
+            return out
+        import impl_engine
+        E = impl_engine.ImplEngine.__new__(impl_engine.ImplEngine)
+        E.dir, E.db, E.scripted, E.clock = wd, db, True, impl_engine.CLOCK
+        import copy
+        E.policies = copy.deepcopy(impl_engine.core_policy.policies)
+        E._scripts, E._item, E.internal_errors = [], -1, []
+        E._open()
+        try:
+            for name, v, it in operations()[:5]:
+                o = E.handle(req(v, it))
+                st = ((o.get("results") or [{}])[0]).get("status")
+                if st != "ok" and name not in ("deriveKey",):
+                    out["problems"].append("%s on the restarted server is answered %s" % (name, (o.get("results") or [o])[0]))
+        finally:
+            E.engine._data_store.dispose()
+        return out
+    finally:
+        shutil.rmtree(wd, ignore_errors=True)
+
+
+def startup_part(ctx, pool):
+    n = startup_case(("count",)).get("count") or 0
+    ks = list(range(1, n + 1))
+    res = pool.map(startup_case, [(k,) for k in ks])
+    for r in res:
+        if r.get("rc") != 99:
+            ctx.report("c09:child-did-not-die:startup", "child exit code %s at schema statement %s" % (r.get("rc"), r["k"]),
+                       {"kind": "startup", "k": r["k"]})
+        for pr in r["problems"][:2]:
+            ctx.report("c09:store-unusable-after-crash-during-first-start",
+                       "the server died before schema statement %d of %d of its first start on a new file; %s" % (r["k"], n, pr),
+                       {"kind": "startup", "k": r["k"]})
+    return {"first_start_schema_statements": n, "first_start_kill_points": len(ks)}
+
+
 def run(ctx):
     import multiprocessing
     wd = tempfile.mkdtemp(prefix="vcrashbase")
@@ -433,6 +494,7 @@ def run(ctx):
                     jobs.append((n, v, it, base_db, k))
             res = pool.map(one_case, jobs, chunksize=2)
             bcov = batch_part(ctx, pool, base_db, before)
+            bcov.update(startup_part(ctx, pool))
         distinct = set()
         for (n, v, it, _, k), r in zip(jobs, res):
             distinct.add((n, k))
@@ -463,7 +525,7 @@ def run(ctx):
             if k not in ("cA", "ack") and not same_before:
                 ctx.report("c09:visible-before-commit:%s" % n, "a kill before COMMIT (at %s) of %s left changes" % (k, n), rep)
         ctx.coverage.update({
-            "evaluations": len(jobs) + len(ops) + bcov["batch_kills"] + bcov["batch_prefix_runs"],
+            "evaluations": len(jobs) + len(ops) + bcov["batch_kills"] + bcov["batch_prefix_runs"] + bcov.get("first_start_kill_points", 0),
             "distinct_nontrivial": len(distinct) + bcov["batch_distinct"], "rule": RULE,
             "samples": [{"op": ops[0][0], "statements": plans[ops[0][0]]["statements"], "kill_points": "1..n, cB, cA, ack"}],
             "operations": [n for n, _, _ in ops], "kills": len(jobs),
